@@ -90,6 +90,17 @@ type sState struct {
 	ghostNext int          // smallest index at which the next non-zero digit may be stored (spacing rule)
 	bnd   map[string][2]*big.Rat // bounds learned from branches on a linear form (keyed by its non-constant part)
 	exps  map[int]pform          // exponent forms of field-element limb arrays (addition-chain evaluation)
+	// protocol domain
+	pfacts   []pFact
+	draws    int
+	readErrs int
+	drawLens []int
+	hdrDraws map[*ssa.BasicBlock]int
+	pbyteSrc *pt
+	drawSites []ssa.Instruction
+	dead      bool
+	limbTerm  map[int]*pt // value of limb arrays (element decoding)
+	gcells   map[string]int // package-level variables of the analysed package (heap cells)
 }
 
 func (s *sState) clone() *sState {
@@ -112,6 +123,29 @@ func (s *sState) clone() *sState {
 	}
 	for k := range s.ones {
 		n.ones[k] = true
+	}
+	n.pfacts = append([]pFact(nil), s.pfacts...)
+	n.pbyteSrc = s.pbyteSrc
+	n.drawSites = append([]ssa.Instruction(nil), s.drawSites...)
+	if s.limbTerm != nil {
+		n.limbTerm = make(map[int]*pt, len(s.limbTerm))
+		for k, v := range s.limbTerm {
+			n.limbTerm[k] = v
+		}
+	}
+	if s.gcells != nil {
+		n.gcells = make(map[string]int, len(s.gcells))
+		for k, v := range s.gcells {
+			n.gcells[k] = v
+		}
+	}
+	n.draws, n.readErrs = s.draws, s.readErrs
+	n.drawLens = append([]int(nil), s.drawLens...)
+	if s.hdrDraws != nil {
+		n.hdrDraws = make(map[*ssa.BasicBlock]int, len(s.hdrDraws))
+		for k, v := range s.hdrDraws {
+			n.hdrDraws[k] = v
+		}
 	}
 	if s.exps != nil {
 		n.exps = make(map[int]pform, len(s.exps))
@@ -310,6 +344,9 @@ type sched struct {
 	ghostW   int            // window width for the digit rules
 	expOps   int            // field multiplications and squarings followed (addition-chain evaluation)
 	expMode  bool           // summarise the Fiat Mul/Square primitives in the exponent domain
+	proto    *protoDom      // protocol domain (SM2 entry points)
+	precond  []string       // preconditions of summarised operations that the path does not establish
+	restarts []*sState      // states that went back to a retry loop's header after drawing
 	digitProblems []string
 	digitStores   int
 	dbgN          int
@@ -673,6 +710,21 @@ func (e *sched) get(st *sState, v ssa.Value) sVal {
 		if g, ok := e.globals[name]; ok {
 			return g
 		}
+		if e.proto != nil {
+			if mk, ok := e.proto.globals[name]; ok {
+				return mk(st)
+			}
+			if st.gcells != nil && x.Pkg != nil && len(e.frames) > 0 && x.Pkg == e.frames[0].Pkg {
+				id, ok := st.gcells[name]
+				if !ok {
+					id = e.newID()
+					elemT := x.Type().Underlying().(*types.Pointer).Elem()
+					st.heap[id] = &hArray{elems: []sVal{e.zeroOf(elemT)}}
+					st.gcells[name] = id
+				}
+				return sPtr{id, 0}
+			}
+		}
 		return sOpaque{"global " + name}
 	case *ssa.Function:
 		return sOpaque{"func"}
@@ -701,6 +753,14 @@ func wrapInt(v *big.Int, t types.Type) *big.Int {
 
 func (e *sched) binop(st *sState, x *ssa.BinOp) sVal {
 	a, b := e.get(st, x.X), e.get(st, x.Y)
+	if e.proto != nil {
+		if r, ok := e.proto.binop(st, x, a, b); ok {
+			return r
+		}
+		if r, ok := e.proto.nilCompare(x, a, b); ok {
+			return r
+		}
+	}
 	// concrete
 	if ai, ok := a.(sInt); ok {
 		if bi2, ok := b.(sInt); ok {
